@@ -470,7 +470,37 @@ func EvalBuild(id int, c Case) Line {
 				return
 			}
 			amt, _ := massutil.NewAmountFromInt(int64(consensus.MinStakingValue))
-			script, err = masswallet.VerifC16StakingScript(addr.EncodeAddress(), c.Frozen, amt)
+			if id%2 == 0 || !wire.IsValidFrozenPeriod(uint64(c.Frozen)) {
+				script, err = masswallet.VerifC16StakingScript(addr.EncodeAddress(), c.Frozen, amt)
+				break
+			}
+			// every other case: the output is the third of a request of four, after an output to the same address with
+			// another period and one to another address with the same period, before one more to the same address: the
+			// script of an output is a function of its own (address, period) wherever it stands in the request
+			ctx := uint32(consensus.MinFrozenPeriod)
+			if ctx == c.Frozen {
+				ctx++
+			}
+			oh := append([]byte{}, c.Hash...)
+			oh[0] ^= 0x5a
+			other, e := massutil.NewAddressStakingScriptHash(oh, config.ChainParams)
+			if e != nil {
+				l.B = BObs{St: "skip", Err: clean(e.Error())}
+				return
+			}
+			var all [][]byte
+			all, err = masswallet.VerifC16StakingScripts([]*masswallet.StakingTxOut{
+				{Address: addr.EncodeAddress(), FrozenPeriod: ctx, Amount: amt},
+				{Address: other.EncodeAddress(), FrozenPeriod: c.Frozen, Amount: amt},
+				{Address: addr.EncodeAddress(), FrozenPeriod: c.Frozen, Amount: amt},
+				{Address: addr.EncodeAddress(), FrozenPeriod: ctx, Amount: amt}})
+			if err == nil {
+				if len(all) != 4 {
+					err = fmt.Errorf("request of 4 staking outputs built %d outputs", len(all))
+				} else {
+					script = all[2]
+				}
+			}
 		case "bind":
 			holder, e := massutil.NewAddressWitnessScriptHash(c.Hash, config.ChainParams)
 			if e != nil {
